@@ -135,6 +135,10 @@ func (stratCache) BlockRootToSlot(_ context.Context, root phase0.Root) (phase0.S
 type stratNode struct {
 	i   uint64
 	err bool
+	f   faults
+	// spare: the one node that never fails, so that no call has to wait for the
+	// strategy's timeout (the 'first' strategies only return early on a success).
+	spare bool
 }
 
 func (n *stratNode) head(slot uint64) phase0.Root {
@@ -144,8 +148,9 @@ func (n *stratNode) head(slot uint64) phase0.Root {
 	return slotRoot(slot)
 }
 
-func (n *stratNode) fail() error {
-	if n.err {
+func (n *stratNode) fail(ctx context.Context) error {
+	// failing for the whole scenario, or for this call (scripted)
+	if n.err || (!n.spare && n.f.hit("node-err", callOf(ctx)<<4^n.i)) {
 		return strErr("scripted node failure")
 	}
 	return nil
@@ -153,7 +158,7 @@ func (n *stratNode) fail() error {
 
 func (n *stratNode) AttestationData(ctx context.Context, opts *api.AttestationDataOpts) (*api.Response[*phase0.AttestationData], error) {
 	meet(ctx)
-	if err := n.fail(); err != nil {
+	if err := n.fail(ctx); err != nil {
 		return nil, err
 	}
 	slot := uint64(opts.Slot)
@@ -169,7 +174,7 @@ func (n *stratNode) AttestationData(ctx context.Context, opts *api.AttestationDa
 
 func (n *stratNode) AggregateAttestation(ctx context.Context, opts *api.AggregateAttestationOpts) (*api.Response[*phase0.Attestation], error) {
 	meet(ctx)
-	if err := n.fail(); err != nil {
+	if err := n.fail(ctx); err != nil {
 		return nil, err
 	}
 	bits := bitfield.NewBitlist(16)
@@ -185,7 +190,7 @@ func (n *stratNode) AggregateAttestation(ctx context.Context, opts *api.Aggregat
 
 func (n *stratNode) SyncCommitteeContribution(ctx context.Context, opts *api.SyncCommitteeContributionOpts) (*api.Response[*altair.SyncCommitteeContribution], error) {
 	meet(ctx)
-	if err := n.fail(); err != nil {
+	if err := n.fail(ctx); err != nil {
 		return nil, err
 	}
 	c := &altair.SyncCommitteeContribution{Slot: opts.Slot, BeaconBlockRoot: opts.BeaconBlockRoot, SubcommitteeIndex: opts.SubcommitteeIndex, AggregationBits: bitfield.NewBitvector128()}
@@ -198,7 +203,7 @@ func (n *stratNode) SyncCommitteeContribution(ctx context.Context, opts *api.Syn
 
 func (n *stratNode) Proposal(ctx context.Context, opts *api.ProposalOpts) (*api.Response[*api.VersionedProposal], error) {
 	meet(ctx)
-	if err := n.fail(); err != nil {
+	if err := n.fail(ctx); err != nil {
 		return nil, err
 	}
 	p := &api.VersionedProposal{
@@ -228,7 +233,7 @@ func blockSlot(block string) uint64 {
 
 func (n *stratNode) BeaconBlockRoot(ctx context.Context, opts *api.BeaconBlockRootOpts) (*api.Response[*phase0.Root], error) {
 	meet(ctx)
-	if err := n.fail(); err != nil {
+	if err := n.fail(ctx); err != nil {
 		return nil, err
 	}
 	r := n.head(blockSlot(opts.Block))
@@ -237,7 +242,7 @@ func (n *stratNode) BeaconBlockRoot(ctx context.Context, opts *api.BeaconBlockRo
 
 func (n *stratNode) BeaconBlockHeader(ctx context.Context, opts *api.BeaconBlockHeaderOpts) (*api.Response[*apiv1.BeaconBlockHeader], error) {
 	meet(ctx)
-	if err := n.fail(); err != nil {
+	if err := n.fail(ctx); err != nil {
 		return nil, err
 	}
 	slot := blockSlot(opts.Block)
@@ -264,7 +269,7 @@ func votedBlock(slot uint64, proposer uint64) *spec.VersionedSignedBeaconBlock {
 
 func (n *stratNode) SignedBeaconBlock(ctx context.Context, opts *api.SignedBeaconBlockOpts) (*api.Response[*spec.VersionedSignedBeaconBlock], error) {
 	meet(ctx)
-	if err := n.fail(); err != nil {
+	if err := n.fail(ctx); err != nil {
 		return nil, err
 	}
 	return &api.Response[*spec.VersionedSignedBeaconBlock]{Data: votedBlock(blockSlot(opts.Block), n.i+1), Metadata: map[string]any{}}, nil
@@ -298,10 +303,16 @@ func buildStrategy(sc *Scenario) (world, error) {
 	timeout := 4 * time.Second
 	nodes := make([]*stratNode, w.nNodes)
 	for i := range nodes {
-		nodes[i] = &stratNode{i: uint64(i), err: sc.P["err"]&(1<<uint(i)) != 0}
+		nodes[i] = &stratNode{i: uint64(i), err: sc.P["err"]&(1<<uint(i)) != 0, f: newFaults(sc.P)}
 	}
 	if nodes[0].err && w.nNodes == 2 && nodes[1].err {
 		nodes[1].err = false
+	}
+	for _, n := range nodes {
+		if !n.err {
+			n.spare = true
+			break
+		}
 	}
 	name := func(i int) string { return fmt.Sprintf("node-%d", i) }
 	cache := stratCache{}
@@ -449,11 +460,11 @@ func buildStrategy(sc *Scenario) (world, error) {
 
 func (w *stratWorld) prepare(rep int) { w.clock.slot.Store(stratBaseSlot + uint64(rep)*4) }
 
-func (w *stratWorld) run(rep int, ri int, _ *Role, op *Op) {
+func (w *stratWorld) run(rep int, ri int, _ *Role, op *Op, call uint64) {
 	slot := stratBaseSlot + uint64(rep)*4 + op.A%4
 	switch op.K {
 	case "call":
-		if err := w.call(withBarrier(context.Background(), w.nNodes), slot); err != nil {
+		if err := w.call(withBarrier(withCall(context.Background(), call), w.nNodes), slot); err != nil {
 			w.failed[ri]++
 		} else {
 			w.ok[ri]++
@@ -514,6 +525,7 @@ func init() {
 			if p["err"] == (1<<n)-1 {
 				p["err"] = 0
 			}
+			genFaults(t, p)
 			return p
 		}
 	}
